@@ -303,6 +303,12 @@ func (m *model) subenv(e *env, v0, v1 string) *env {
 	return &env{grp: []string{v0, v1}, keys: e.keys, sub: true}
 }
 
+// subenv1: the match a sub-expression of @map / @filter sees - "{0} is the
+// current element", nothing else is bound.
+func (m *model) subenv1(e *env, v0 string) *env {
+	return &env{grp: []string{v0}, keys: e.keys, sub: true}
+}
+
 func (m *model) see(op string, l []string) {
 	if m.obs == nil {
 		return
@@ -330,10 +336,22 @@ func (m *model) eval(n *Node, e *env) string {
 	case "lit":
 		return string(n.S)
 	case "grp":
-		if n.I < 0 || n.I >= len(e.grp) {
-			panic(fmt.Sprintf("harness: group {%d} outside the generated domain", n.I))
+		if n.I >= 0 && n.I < len(e.grp) {
+			return e.grp[n.I]
 		}
-		return e.grp[n.I]
+		if e.sub && n.I >= 1 && n.I <= 3 {
+			// a group the helper does not bind in its sub-expression ({1}
+			// in @map/@filter, {2} everywhere): the sub-expression sees a
+			// match of its own that holds the documented values only, and a
+			// group a match does not have is empty ({coalesce {4} {3}
+			// notfound}) - never a value of some earlier evaluation
+			if m.obs != nil {
+				m.obs.Label(true, "unbound-group-in-sub-expression")
+				m.obs.Label(len(e.grp) == 1 && n.I == 1, "unbound-{1}-in-map/filter")
+			}
+			return ""
+		}
+		panic(fmt.Sprintf("harness: group {%d} outside the generated domain", n.I))
 	case "key":
 		v, ok := e.keys[string(n.S)]
 		if !ok {
@@ -445,7 +463,8 @@ func (m *model) call(n *Node, e *env) string {
 		if m.obs != nil {
 			m.obs.Label(b < 0, "negative-index")
 			m.obs.Label(b >= nn || b < -nn, "index-out-of-range")
-			m.obs.Label(cnt >= 0 && b+cnt > nn, "slice-length-past-end")
+			m.obs.Label(cnt >= 0 && b >= 0 && b < nn && cnt > nn-b, "slice-length-past-end")
+			m.obs.Label(cnt > 1<<30, "astronomic-slice-length")
 		}
 		if nn == 0 || b >= nn {
 			return ""
@@ -455,7 +474,7 @@ func (m *model) call(n *Node, e *env) string {
 			lo = b + nn
 		}
 		hi := nn
-		if cnt >= 0 {
+		if cnt >= 0 && (lo < 0 || cnt < nn-lo) { // no addition that can wrap: cnt may be MaxInt64
 			hi = lo + cnt
 		}
 		if lo < 0 {
@@ -486,7 +505,7 @@ func (m *model) call(n *Node, e *env) string {
 		l := decode(enc)
 		m.see(f, l)
 		if enc == "" {
-			r0 := m.eval(a[1], m.subenv(e, "", ""))
+			r0 := m.eval(a[1], m.subenv1(e, ""))
 			if r0 != "" {
 				m.touch("mapEmpty")
 				if m.rd.mapEmpty == 1 {
@@ -497,7 +516,7 @@ func (m *model) call(n *Node, e *env) string {
 		}
 		out := make([]string, len(l))
 		for i, x := range l {
-			out[i] = m.eval(a[1], m.subenv(e, x, ""))
+			out[i] = m.eval(a[1], m.subenv1(e, x))
 		}
 		return encode(out)
 
@@ -507,7 +526,7 @@ func (m *model) call(n *Node, e *env) string {
 		m.see(f, l)
 		var out []string
 		for _, x := range l {
-			if truthy(m.eval(a[1], m.subenv(e, x, ""))) {
+			if truthy(m.eval(a[1], m.subenv1(e, x))) {
 				out = append(out, x)
 			}
 		}
@@ -549,6 +568,9 @@ func (m *model) call(n *Node, e *env) string {
 			memo, rest = l[0], l[1:]
 		}
 		for _, x := range rest {
+			if m.obs != nil {
+				m.obs.Label(x != "", "reduce-binds-{1}")
+			}
 			memo = m.eval(a[1], m.subenv(e, memo, x))
 			m.tick(len(memo) / 16)
 		}
@@ -659,6 +681,7 @@ func (m *model) call(n *Node, e *env) string {
 		}
 		if m.obs != nil {
 			m.obs.Label(true, "op:@for")
+			m.obs.Label(true, "for-binds-{1}")
 			m.obs.Label(len(out) == 0, "for-empty")
 			m.obs.Label(len(out) > 0 && out[0] == "", "for-first-element-empty")
 			if len(out) > m.obs.Get("maxlen") {
@@ -761,6 +784,14 @@ func (m *model) call(n *Node, e *env) string {
 		}
 		if r {
 			return "1"
+		}
+		return ""
+	// "Evaluates arguments in-order, choosing the first non-empty result."
+	case "coalesce":
+		for i := range a {
+			if v := m.eval(a[i], e); v != "" {
+				return v
+			}
 		}
 		return ""
 	case "if":
